@@ -3,6 +3,6 @@ CONSTANTS
   Sigma = {1, 2}
   MaxP = 4
   MaxT = 8
-  Bug = "FallbackQ"
+  KmpBug = "FallbackQ"
 INVARIANTS PrefixFnCorrect QInvariant HitCorrect
 CHECK_DEADLOCK FALSE
